@@ -95,6 +95,43 @@ def oracle_transparent(cases):
     return viol, n
 
 
+def oracle_ids_stable(cases):
+    """the ids a pipeline lists are those of its source (a Merge: the sorted union), before and after every call"""
+    viol, n = [], 0
+    for i, c in enumerate(cases):
+        for op, ob in call_ops(c):
+            if 'ids_now' not in ob:
+                continue
+            n += 1
+            head = c['variants'][op['variant']][0]
+            want = list(head['ids']) if head['t'] == 'source' else sorted(x for p_ in head['parts'] for x in p_[0]['ids'])
+            if ob['ids_now'] != want:
+                viol.append({'signature': 'oracle:ids-changed', 'case': _slim(c), 'observed': ob['ids_now'], 'expected': want,
+                             'what': f'history {i}: after {op} the pipeline lists the ids {ob["ids_now"]}, its source lists {want}'})
+                break
+    return viol, n
+
+
+def oracle_once_per_call(cases):
+    """C03: within one call no user function runs twice on the same arguments (every function symbol is used by one field only)"""
+    viol, n = [], 0
+    for i, c in enumerate(cases):
+        for op, ob in call_ops(c):
+            n += 1
+            seen, dup = set(), None
+            for entry in ob.get('log', []):
+                k = json.dumps(entry, sort_keys=True)
+                if k in seen:
+                    dup = entry
+                    break
+                seen.add(k)
+            if dup is not None:
+                viol.append({'signature': 'oracle:double-evaluation', 'case': _slim(c), 'observed': dup,
+                             'what': f'history {i}: {op}: the user function {dup[0]} ran twice on the same arguments within one call'})
+                break
+    return viol, n
+
+
 def has_ram(c):
     def walk(spec):
         for d in spec:
